@@ -458,7 +458,13 @@ func (fv *FnVerifier) callWrites(c *ssa.CallCommon) (keys []string, all bool) {
 	}
 	name := calleeName(fn)
 	if mdl, ok := models[name]; ok {
-		return mdl.writes(fv), false
+		ks := mdl.writes(fv)
+		for _, k := range ks {
+			if strings.HasPrefix(k, "*") {
+				return nil, true
+			}
+		}
+		return ks, false
 	}
 	if fn.Pkg != nil && isLoggerPkg(fn.Pkg.Pkg.Path()) {
 		return nil, false
@@ -548,6 +554,7 @@ func (fv *FnVerifier) execCallCommon(c *ssa.CallCommon, instr *ssa.Call, st *Sta
 				return freshResult()
 			}
 			fv.note("havoc: interface call without contract: " + typeKey(c.Value.Type()) + "." + c.Method.Name())
+			fv.frameUnknownCall(pos, typeKey(c.Value.Type())+"."+c.Method.Name())
 			fv.havocAll(st)
 			return freshResult()
 		}
@@ -582,6 +589,7 @@ func (fv *FnVerifier) execCallCommon(c *ssa.CallCommon, instr *ssa.Call, st *Sta
 		return fv.applyContract(fc, obj, fn.Signature, args, st, pos, name, nil)
 	}
 	fv.note("havoc: call without contract: " + fname)
+	fv.frameUnknownCall(pos, fname)
 	fv.havocAll(st)
 	return freshResult()
 }
@@ -670,6 +678,7 @@ func (fv *FnVerifier) applyContract(fc *FuncContract, obj *types.Func, sig *type
 		st.alloc = na
 	} else {
 		fv.note("callee " + callee + " has no assigns clause: whole heap havoc'd at its call sites")
+		fv.frameUnknownCall(pos, callee)
 		fv.havocAll(st)
 	}
 	// results
@@ -709,6 +718,29 @@ func (fv *FnVerifier) applyContract(fc *FuncContract, obj *types.Func, sig *type
 		if ifaceT != nil {
 			fv.pureApps = append(fv.pureApps, pureApp{obj: obj, recv: terms[0], nargs: len(terms) - 1, res: rvals[0]})
 		}
+	} else if fc.Pure && obj != nil && nres > 1 {
+		// several results: each one is a function of the argument values (not callable inside specifications)
+		var sorts, terms []string
+		for i, a := range args {
+			var t types.Type
+			if hasRecv && i == 0 {
+				t = args[0].T
+			} else {
+				t = sig.Params().At(i - ai).Type()
+			}
+			sorts = append(sorts, fv.sortOf(t))
+			terms = append(terms, fv.scalar(a, t))
+		}
+		for ri := 0; ri < nres; ri++ {
+			pn := fmt.Sprintf("%s.r%d", pureFnName(obj), ri)
+			fv.q.declareFun(pn, sorts, fv.sortOf(sig.Results().At(ri).Type()))
+			app := pn
+			if len(terms) > 0 {
+				app = "(" + pn + " " + strings.Join(terms, " ") + ")"
+			}
+			fv.q.assume("(= " + rvals[ri].S + " " + app + ")")
+		}
+		fv.note("pure: " + obj.FullName() + " is treated as a function of its argument values")
 	}
 	ce2 := fv.newCEnv(names, st, pre)
 	ce2.pkgPath = ce.pkgPath
